@@ -142,7 +142,9 @@ func renameArgs(args []Arg, r *Rename) []Arg {
 	return newArgs
 }
 
-var aFolder Folder
+// aFolder is used by replaceExpr.
+// The values it substitutes are not literals in the source code.
+var aFolder = Folder{NoLiteralCheck: true}
 
 // replaceExpr is used by Where Transform on Extend.
 // It replaces identifiers in an expression with expressions.
